@@ -447,7 +447,7 @@ type streamCase struct {
 }
 
 func randomChunks(r *rand.Rand, n, mx int) []int {
-	var c []int
+	c := []int{}
 	for n > 0 {
 		k := 1 + r.Intn(mx)
 		if k > n {
@@ -536,10 +536,14 @@ func cmdStreamTable(args []string) int {
 						variant{"iotest.DataErrReader", nil, viaIotest(data, iotest.DataErrReader)},
 						variant{"iotest.DataErrReader(OneByteReader)", nil, viaIotest(data, func(r io.Reader) io.Reader { return iotest.DataErrReader(iotest.OneByteReader(r)) })})
 				}
+				wholeOK := false
 				for _, vr := range vs {
 					g := readVia(h, signed, data, false, vr.mk)
 					rep.Calls++
-					chunked := vr.name != "whole"
+					if vr.name == "whole" {
+						wholeOK = g.Ok
+					}
+					chunked := vr.name != "whole" && wholeOK
 					w := want
 					if len(vr.name) > 20 || vr.name == "iotest.DataErrReader" {
 						w.Used = -1 // DataErrReader reads ahead: the position of the underlying reader says nothing
@@ -586,10 +590,14 @@ func cmdStreamTable(args []string) int {
 			if h.H == "Num" && h.A != 32 {
 				vs = append(vs, variant{"whole", []int{len(data)}, true})
 			}
+			wholeOK := false
 			for i, vr := range vs {
 				g := readVia(h, vr.signed, data, i == 0, viaChunks(data, vr.chunks))
 				rep.Calls++
-				class, text := judge(g, want, len(data), vr.name != "whole")
+				if i == 0 {
+					wholeOK = g.Ok
+				}
+				class, text := judge(g, want, len(data), vr.name != "whole" && wholeOK)
 				if class == "" && i == 0 {
 					if g.Alloc > rep.MaxAlloc {
 						rep.MaxAlloc = g.Alloc
@@ -623,9 +631,9 @@ type streamRec struct {
 	H      helper `json:"h"`
 	Signed bool   `json:"signed"`
 	V      any    `json:"v,omitempty"`
-	W      []int  `json:"w,omitempty"`
-	Tail   []int  `json:"tail,omitempty"`
-	S      []int  `json:"s,omitempty"`
+	W      []int  `json:"w"`
+	Tail   []int  `json:"tail"`
+	S      []int  `json:"s"`
 	Chunks []int  `json:"chunks"`
 	Got    got    `json:"got"`
 	Alloc  uint64 `json:"alloc"`
@@ -723,7 +731,7 @@ func cmdStreamRecords(args []string) int {
 		var werr error
 		o := guarded(false, false, func() { wb, werr = streamWrite(h, jsonRound(v), signed) })
 		if o.panicked || werr != nil {
-			s.emit(streamRec{K: "rt", H: h, Signed: signed, V: v, W: []int{}, Tail: []int{}, Chunks: []int{}, Got: got{V: []int{}, Panic: o.pmsg}, Werr: fmt.Sprint(werr)})
+			s.emit(streamRec{K: "rt", H: h, Signed: signed, V: v, W: []int{}, Tail: []int{}, S: []int{}, Chunks: []int{}, Got: got{V: []int{}, Panic: o.pmsg}, Werr: fmt.Sprint(werr)})
 			continue
 		}
 		if i%3 != 2 {
@@ -731,7 +739,7 @@ func cmdStreamRecords(args []string) int {
 			data := append(append([]byte{}, wb...), tail...)
 			ch := randomChunks(r, len(data), 1+r.Intn(9))
 			g := readVia(h, signed, data, true, viaChunks(data, ch))
-			s.emit(streamRec{K: "rt", H: h, Signed: signed, V: v, W: fromBytes(wb), Tail: fromBytes(tail), Chunks: ch, Got: g, Alloc: g.Alloc})
+			s.emit(streamRec{K: "rt", H: h, Signed: signed, V: v, W: fromBytes(wb), Tail: fromBytes(tail), S: []int{}, Chunks: ch, Got: g, Alloc: g.Alloc})
 			continue
 		}
 		// hostile variant of the valid encoding
@@ -772,7 +780,7 @@ func cmdStreamRecords(args []string) int {
 		if al > 1<<30 {
 			al = 1 << 30 // TLC integers are 32 bit
 		}
-		s.emit(streamRec{K: "mut", H: h, Signed: signed, S: fromBytes(data), Chunks: ch, Got: g, Alloc: al})
+		s.emit(streamRec{K: "mut", H: h, Signed: signed, W: []int{}, Tail: []int{}, S: fromBytes(data), Chunks: ch, Got: g, Alloc: al})
 	}
 	s.close()
 	fmt.Printf("{\"records\": %d}\n", s.n)
